@@ -74,7 +74,8 @@ TOL = {
     and any(e.get("typ") is None for e in ir["params"].values()),
     # function docstring carries 'Defaults to "x"': the parsed str default overrides the non-scalar annotation with 'str'
     "KF-RT-fn-typ-from-default": lambda k, w, c, ir, o: k in ("function", "method") and c == "typ-changed"
-    and isinstance(_entry(ir, w).get("default"), str) and o.get("emit_default_doc", True),
+    and "default" in _entry(ir, w) and not _is_none(_entry(ir, w)["default"]) and _entry(ir, w).get("typ") not in ZERO
+    and o.get("emit_default_doc", True),
     # google: a docstring with only a Returns section is read as prose
     "KF-RT-google-retonly": lambda k, w, c, ir, o: k == "google" and not ir["params"] and w == "returns",
     # class emitter: an explicit None default of a scalar-typed parameter is replaced by the type's zero value
